@@ -870,6 +870,8 @@ def run(rep, pdb, tier):
         for r_ in rets:
             v = strip(r_["e"]) if r_.get("e") is not None else None
             if v is not None and v.get("k") == "Call" and v["f"].get("fn", "").endswith("::Ok"):
+                if not _is_ok(r_):
+                    continue          # `Ok(restart? + i)`: decided by the restart rule
                 okn += 1
                 pv = ctx.term(v["args"][0])
                 inside = any(a is sv.main for a in ancestors(r_))
@@ -1019,9 +1021,27 @@ def restart_of(sv, n):
             add_ok = False          # spelled as a match: not recognised (fail closed)
     elif v.get("k") == "MethodCall" and callee_path(v) == own:
         inner, add_ok = v, False    # the bare recursive result would report k, not counter + k
+    args = None
+    if inner is None and v.get("k") == "Call" and str(v["f"].get("fn", "")).endswith("::Ok") and len(v.get("args", [])) == 1:
+        # `Ok( self.solve_x( b, x, max_iter - i, tol )? + i )` (the callee's Err passes through `?` unchanged: same Result type)
+        t = ctx.term(v["args"][0])
+        tries = []
+
+        def _find(t_):
+            if isinstance(t_, tuple):
+                if t_ and t_[0] == "try" and len(t_) == 2 and t_[1][0] == "call" and t_[1][1] == own:
+                    tries.append(t_)
+                for x_ in t_:
+                    _find(x_)
+        _find(t)
+        if len(tries) == 1:
+            args = list(tries[0][1][2:])
+            add_ok = sv.counter is not None and t == lin_add(tries[0], sv.counter)
+            inner = v
     if inner is None:
         return None
-    args = [ctx.term(a) for a in call_args(inner)]
+    if args is None:
+        args = [ctx.term(a) for a in call_args(inner)]
     want = [P(0), B_, X_, lin_add(MAXIT, ("lin", 0, ((sv.counter, -1),))) if False else None, TOL]
     budget_ok = False
     if sv.counter is not None and len(args) >= 5:
@@ -1034,8 +1054,21 @@ def restart_of(sv, n):
 
 
 def _is_ok(n):
+    """`return Ok(e)` with a plain payload; `Ok(self.solve_x(..)? + i)` is a restart (its success is the callee's), not a success exit of its own"""
     v = strip(n["e"]) if n.get("e") is not None else None
-    return v is not None and v.get("k") == "Call" and v["f"].get("fn", "").endswith("::Ok")
+    if not (v is not None and v.get("k") == "Call" and v["f"].get("fn", "").endswith("::Ok")):
+        return False
+    fnb = (n.get("_fn") or {}).get("body")
+    for a in v.get("args", []):
+        for x in walk(a):
+            if x.get("k") == "Try":
+                return False
+            if x.get("k") == "Local" and fnb is not None:
+                for l_ in walk(fnb):
+                    if l_.get("k") == "Let" and l_.get("pat", {}).get("k") == "Bind" and l_["pat"].get("v") == x.get("v") and not l_["pat"].get("mut") and \
+                            isinstance(l_.get("init"), dict) and strip(l_["init"]).get("k") == "Try":
+                        return False
+    return True
 
 
 def confirmed(sv, node):
